@@ -467,9 +467,9 @@ func TestC11Enum(t *testing.T) {
 		}
 	}
 	// storms of start / connect-flood / stop cycles: Stop racing the accept loop
-	storms := 8
+	storms := 28
 	if lab.Thorough() {
-		storms = 64
+		storms = 96
 	}
 	for k := 0; k < storms; k++ {
 		base := [][]string{nil, {"idle"}, {"tls-no-hello"}, {"idle", "tls-idle"}}[k%4]
